@@ -2,6 +2,7 @@ import CwPlus.Lemmas.Cw3Flex
 import CwPlus.Props.C03
 import CwPlus.Props.C15
 import CwPlus.Props.C05Flex
+import CwPlus.Lemmas.Cw3FlexAt
 /-!
 # C03 (cw3-flex part) — the status reported for a proposal is the outcome implied by its ballots
 
@@ -11,11 +12,17 @@ the definitions of that file.  For cw3-flex the recorded total is the one `Propo
 relates to the group's snapshot).
 
 Premise of the *meaning* of `Outcome` as "the documented cw3 rule": tally ≤ total (C06).  For cw3-flex that premise
-can fail only in the same-block situation tracked under C06 (D3); the theorems below do not need it — they state
-that queries, `Execute` and `Close` all follow the library's decision on the recorded ballots, whatever the total.
+can fail only in the same-block situation tracked under C06 (D3); `status_eq_outcome`, `execute_admits_iff_outcome`,
+`close_admits_iff_outcome` and the Yes-weight theorems do not need it — they state that queries, `Execute` and `Close`
+all follow the library's decision on the recorded ballots, whatever the total.  The theorems that read the decision
+as the exact rule or justify a sticky status (`status_eq_exact_outcome`, `status_exact_outcome_within_one`,
+`passed_justified`, `rejected_justified`, `rejected_when_stored`) take the premise of C04 for the proposal at hand as
+an explicit hypothesis `C04.Premise …`: recorded ballots ≤ recorded total (false only inside D3), recorded total in
+`u64`, threshold valid for the recorded total (for `AbsoluteCount` false once the group has shrunk below the count:
+`C04.count_above_total`).
 -/
 namespace CwPlus.Props.C03Flex
-open CwPlus CwPlus.Cw3 CwPlus.Cw3Core CwPlus.Cw3Flex CwPlus.Props.C03
+open CwPlus CwPlus.Cw3 CwPlus.Cw3Core CwPlus.Cw3Flex CwPlus.Props CwPlus.Props.C03
 
 /-- The status every query (`Proposal`, and per entry `ListProposals` / `ReverseProposals`, which use the same
 `viewOf`) reports for a proposal is `current_status` of the stored record at the query block. -/
@@ -75,6 +82,139 @@ theorem execute_admits_iff_outcome {ext : Ext} {fuel : Nat} {w : World} (hr : Re
       simp only [Proposal.currentStatus, this, h]
     · refine ⟨p, hp, ?_, ha⟩
       simp only [Outcome, ← tally_eq_ballotTally hr hp ho] at h; exact h
+
+/-- **Close is admitted iff expired and not Passed**: in a reachable world Close succeeds (for anybody, with any
+group state and funds) exactly when the proposal is stored Open, has expired, and the outcome of its recorded
+ballots at the call's block is not Passed — then it is Rejected. -/
+theorem close_admits_iff_outcome {ext : Ext} {fuel : Nat} {w : World} (hr : Reachable ext fuel w) (g : Cw4Group.State)
+    (self : Addr) (blk : Block) (snd : Addr) (funds : List Coin) (id : Nat) :
+    (Cw3Flex.execute w.flex g self blk snd funds (.close id)).isOk = true ↔
+      ∃ p, w.flex.core.proposals.get? id = some p ∧ p.status = .open ∧ p.expires.isExpired blk = true ∧
+        Outcome p (ballotsOf w.flex.core id) blk = .ok .rejected := by
+  rw [CwPlus.Props.C05Flex.close_ok_iff (reachable_inv hr)]
+  constructor
+  · rintro ⟨p, st, hp, ho, hst, hne, hexp⟩
+    refine ⟨p, hp, ho, hexp, ?_⟩
+    simp only [Outcome, ← tally_eq_ballotTally hr hp ho]
+    have hst' : Cw3.currentStatus p.tally blk = .ok st := hst
+    rcases expired_status (t := p.tally) (by simp [Proposal.tally, ho]) (by simpa [Proposal.tally] using hexp) hst' with e | e
+    · exact absurd e hne
+    · subst e; exact hst'
+  · rintro ⟨p, hp, ho, hexp, hout⟩
+    refine ⟨p, .rejected, hp, ho, ?_, by simp, hexp⟩
+    simp only [Outcome, ← tally_eq_ballotTally hr hp ho] at hout; exact hout
+
+/-! ## the status is the EXACT documented rule (C03 × C04), inside the premise -/
+
+/-- **Status = the exact documented rule** (cw3-flex instance of `C03.status_eq_exact_outcome`; thresholds / quorums
+with at most 9 decimals).  Hypothesis `hprem`: the premise of C04 for the recorded ballots and the recorded total
+— ballots ≤ total holds outside the known same-block finding of C06.  Then for a proposal stored Open the query
+answers at every block and reports Passed exactly when the recorded Yes weight is positive and the documented
+rule holds in exact cross-multiplied integer arithmetic for every completion of the outstanding votes (after
+expiry: for the recorded ballots); Rejected only if expired without passing or no completion can pass; Open
+otherwise and only before expiry. -/
+theorem status_eq_exact_outcome {ext : Ext} {fuel : Nat} {w : World} (hr : Reachable ext fuel w) {id : Nat} {p : Proposal}
+    (hp : w.flex.core.proposals.get? id = some p) (ho : p.status = .open)
+    (hprem : C04.Premise (ballotTally p (ballotsOf w.flex.core id))) (h9 : C04.nineDecimals p.threshold) (blk : Block) :
+    ∃ st, (Cw3Flex.queryProposal w.flex blk id).map (·.status) = .ok st ∧
+      (st = .passed ↔ 0 < sumK .yes (ballotsOf w.flex.core id) ∧
+        CertainBy C04.exactPasses p.threshold p.totalWeight (tallyOf (ballotsOf w.flex.core id)) (p.expires.isExpired blk)) ∧
+      (st = .rejected →
+        HopelessBy C04.exactPasses p.threshold p.totalWeight (tallyOf (ballotsOf w.flex.core id)) (p.expires.isExpired blk)) ∧
+      (st = .open → p.expires.isExpired blk = false) ∧
+      (st = .open ∨ st = .passed ∨ st = .rejected) := by
+  rw [status_eq_outcome hr hp, if_pos ho]
+  exact exact_outcome9 (t := ballotTally p (ballotsOf w.flex.core id)) rfl hprem h9 blk
+
+/-- … and for thresholds with up to 18 digits: never stricter than the exact rule, at most one vote more
+permissive (`C04.laxPasses`). -/
+theorem status_exact_outcome_within_one {ext : Ext} {fuel : Nat} {w : World} (hr : Reachable ext fuel w) {id : Nat}
+    {p : Proposal} (hp : w.flex.core.proposals.get? id = some p) (ho : p.status = .open)
+    (hprem : C04.Premise (ballotTally p (ballotsOf w.flex.core id))) (blk : Block) :
+    ∃ st, (Cw3Flex.queryProposal w.flex blk id).map (·.status) = .ok st ∧
+      (CertainBy C04.exactPasses p.threshold p.totalWeight (tallyOf (ballotsOf w.flex.core id)) (p.expires.isExpired blk) →
+        st = .passed) ∧
+      (st = .passed → 0 < sumK .yes (ballotsOf w.flex.core id) ∧
+        CertainBy C04.laxPasses p.threshold p.totalWeight (tallyOf (ballotsOf w.flex.core id)) (p.expires.isExpired blk)) ∧
+      (st = .rejected →
+        HopelessBy C04.exactPasses p.threshold p.totalWeight (tallyOf (ballotsOf w.flex.core id)) (p.expires.isExpired blk)) ∧
+      (st = .open → p.expires.isExpired blk = false) ∧
+      (st = .open ∨ st = .passed ∨ st = .rejected) := by
+  rw [status_eq_outcome hr hp, if_pos ho]
+  exact exact_outcome18 (t := ballotTally p (ballotsOf w.flex.core id)) rfl hprem blk
+
+/-! ## a stored Passed / Rejected is justified by the recorded ballots, inside the premise -/
+
+/-- On histories whose blocks never go back every stored Passed / Rejected whose tally is inside the premise of
+C04 is backed by that tally at the block of the last transaction and at every later block. -/
+theorem reachableAt_decided {ext : Ext} {fuel : Nat} {w : World} {b : Block} (h : ReachableAt ext fuel w b) :
+    Inv w.flex ∧ AllP (fun _ p => DecidedOk b p) w.flex.core := by
+  refine reachableAt_inv (fun b s => Inv s ∧ AllP (fun _ p => DecidedOk b p) s.core) ?_ ?_ ?_ h
+  · intro b b2 s hb ⟨hi, ha⟩
+    exact ⟨hi, fun id p hp => decidedOk_mono hb (ha id p hp)⟩
+  · intro b s g self snd funds m s' out ⟨hi, ha⟩ he
+    exact ⟨execute_inv hi he, allP_step hi.wf (fun _ _ _ hold hs => decidedOk_step hold hs) ha (execute_coreStep he)⟩
+  · intro m g s b hi
+    exact ⟨instantiate_inv hi, by rw [instantiate_core hi]; exact allP_empty _⟩
+
+/-- **A stored Passed is justified** (cw3-flex instance of `C03.passed_justified`): on every history whose blocks
+never go back, for a proposal stored Passed whose recorded ballots are inside the premise of C04 (`hprem`, about
+the final world only), the outcome implied by its currently recorded ballots is Passed at the block of the last
+transaction and at every later block — later votes on a Passed proposal and the passage of time never
+contradict the stored status. -/
+theorem passed_justified {ext : Ext} {fuel : Nat} {w : World} {b : Block} (hr : ReachableAt ext fuel w b) {id : Nat}
+    {p : Proposal} (hp : w.flex.core.proposals.get? id = some p) (hs : p.status = .passed)
+    (hprem : C04.Premise (ballotTally p (ballotsOf w.flex.core id))) {b' : Block} (hb : C04.later b b') :
+    Outcome p (ballotsOf w.flex.core id) b' = .ok .passed := by
+  obtain ⟨hi, ha⟩ := reachableAt_decided hr
+  have e := ballotTally_eq_openT (hi.wf.tally id p hp)
+  rw [e] at hprem
+  have h := (ha id p hp hprem).1 hs b' hb
+  unfold Outcome; rw [e]
+  exact cs_passed_of_isPassed rfl h
+
+/-- Hence, inside the premise, whenever Execute succeeds at or after the block of the last transaction the
+outcome implied by the recorded ballots at that block is Passed: no proposal becomes executable with a Yes share
+below its threshold. -/
+theorem executable_implies_outcome_passed {ext : Ext} {fuel : Nat} {w : World} {b : Block} (hr : ReachableAt ext fuel w b)
+    {b' : Block} (hb : C04.later b b') {g : Cw4Group.State} {self snd : Addr} {funds : List Coin} {id : Nat}
+    (hprem : ∀ p, w.flex.core.proposals.get? id = some p → C04.Premise (ballotTally p (ballotsOf w.flex.core id)))
+    (h : (Cw3Flex.execute w.flex g self b' snd funds (.execute id)).isOk = true) :
+    ∃ p, w.flex.core.proposals.get? id = some p ∧ Outcome p (ballotsOf w.flex.core id) b' = .ok .passed := by
+  obtain ⟨p, hp, _, hs | ⟨_, hout⟩⟩ := (execute_admits_iff_outcome hr.reachable g self b' snd funds id).mp h
+  · exact ⟨p, hp, passed_justified hr hp hs (hprem p hp) hb⟩
+  · exact ⟨p, hp, hout⟩
+
+/-- **A stored Rejected is justified** (cw3-flex instance of `C03.rejected_justified`): on every history whose
+blocks never go back, for a proposal stored Rejected whose recorded ballots are inside the premise of C04, the
+outcome implied by its currently recorded ballots is Rejected at the block of the last transaction and at every
+later block `b'`, and at each such block either it has expired and the recorded ballots fail the rule, or it has
+not and no completion of the outstanding votes can pass. -/
+theorem rejected_justified {ext : Ext} {fuel : Nat} {w : World} {b : Block} (hr : ReachableAt ext fuel w b) {id : Nat}
+    {p : Proposal} (hp : w.flex.core.proposals.get? id = some p) (hs : p.status = .rejected)
+    (hprem : C04.Premise (ballotTally p (ballotsOf w.flex.core id))) {b' : Block} (hb : C04.later b b') :
+    Outcome p (ballotsOf w.flex.core id) b' = .ok .rejected ∧
+    HopelessBy C04.libPasses p.threshold p.totalWeight (tallyOf (ballotsOf w.flex.core id)) (p.expires.isExpired b') ∧
+    HopelessBy C04.exactPasses p.threshold p.totalWeight (tallyOf (ballotsOf w.flex.core id)) (p.expires.isExpired b') := by
+  obtain ⟨hi, ha⟩ := reachableAt_decided hr
+  have e := ballotTally_eq_openT (hi.wf.tally id p hp)
+  have hprem' : C04.Premise (openT p) := by rw [← e]; exact hprem
+  have h := (ha id p hp hprem').2 hs b' hb
+  have hout : Outcome p (ballotsOf w.flex.core id) b' = .ok .rejected := by
+    unfold Outcome; rw [e]; exact h
+  exact ⟨hout, rejected_hopeless (t := ballotTally p (ballotsOf w.flex.core id)) rfl hprem hout⟩
+
+/-- … and at the moment it is stored: whenever a flex handler call at block `b` leaves a proposal stored Rejected
+that was not stored Rejected before, and its tally is inside the premise, then at `b` either the proposal has
+expired and its tally fails the rule, or no completion of the then outstanding votes can pass. -/
+theorem rejected_when_stored {s s' : State} {g : Cw4Group.State} {self : Addr} {b : Block} {snd : Addr} {funds : List Coin}
+    {m : ExecMsg} {out : List Out} (hi : Inv s) (h : Cw3Flex.execute s g self b snd funds m = .ok (s', out))
+    {id : Nat} {p' : Proposal} (hp' : s'.core.proposals.get? id = some p') (hs : p'.status = .rejected)
+    (hnew : ∀ p, s.core.proposals.get? id = some p → p.status ≠ .rejected) (hprem : C04.Premise (openT p')) :
+    HopelessBy C04.libPasses p'.threshold p'.totalWeight p'.votes (p'.expires.isExpired b) ∧
+    HopelessBy C04.exactPasses p'.threshold p'.totalWeight p'.votes (p'.expires.isExpired b) := by
+  have hst := propStep_stores_rejected (coreStep_prop hi.wf (execute_coreStep h) hp') hs hnew
+  exact rejected_hopeless (t := openT p') rfl hprem hst
 
 /-! ## never executable without Yes weight (D1 fixed) -/
 
@@ -177,6 +317,17 @@ def ops : List Op :=
 
 def final : World := run CwPlus.Props.C15.Cex.noExt 10 world0 ops
 
+/-- `b` (3 of 5) proposes: Passed at once; `a` still votes No on it; `a` proposes a second one, `b` votes No
+(2 yes / 3 no: undecided), after its expiry an outsider closes it -/
+def opsJ : List Op :=
+  [⟨⟨10, 0⟩, .flex "b" [] (.propose "t" "d" [] none)⟩,
+   ⟨⟨11, 0⟩, .flex "a" [] (.vote 1 .no)⟩,
+   ⟨⟨11, 0⟩, .flex "a" [] (.propose "t2" "d" [] none)⟩,
+   ⟨⟨12, 0⟩, .flex "b" [] (.vote 2 .no)⟩,
+   ⟨⟨16, 0⟩, .flex "x" [] (.close 2)⟩]
+
+def finalJ : World := run CwPlus.Props.C15.Cex.noExt 10 world0 opsJ
+
 end Ex
 
 example : instantiate Ex.inst (some Ex.group0) = .ok Ex.flex0 := rfl
@@ -188,6 +339,86 @@ example :
     (Cw3Flex.execute Ex.final.flex Ex.final.group "ms" ⟨10, 0⟩ "a" [] (.execute 1)).isOk = false ∧
     ((Cw3Flex.queryProposal Ex.final.flex ⟨15, 0⟩ 1).toOption.map (·.status)) = some .rejected ∧
     ((Ex.final.flex.core.proposals.get? 1).map (·.votes)) = some ⟨0, 0, 5, 0⟩ := by
+  decide
+
+/-! ### non-vacuity of the exact-rule and sticky-status statements -/
+
+/-- the history `Ex.opsJ` has non-decreasing blocks -/
+theorem exJ_reachableAt : ReachableAt CwPlus.Props.C15.Cex.noExt 10 Ex.finalJ ⟨16, 0⟩ := by
+  have h0 : ReachableAt CwPlus.Props.C15.Cex.noExt 10 Ex.world0 ⟨10, 0⟩ :=
+    ReachableAt.init (m := Ex.inst) Ex.group0 CwPlus.Props.C15.Cex.token0 [] "ms" "grp" "tok" 5 ⟨10, 0⟩ rfl
+  have h1 := ReachableAt.step ⟨⟨10, 0⟩, .flex "b" [] (.propose "t" "d" [] none)⟩ h0 ⟨Nat.le_refl _, Nat.le_refl _⟩
+  have h2 := ReachableAt.step ⟨⟨11, 0⟩, .flex "a" [] (.vote 1 .no)⟩ h1 ⟨by decide, by decide⟩
+  have h3 := ReachableAt.step ⟨⟨11, 0⟩, .flex "a" [] (.propose "t2" "d" [] none)⟩ h2 ⟨Nat.le_refl _, Nat.le_refl _⟩
+  have h4 := ReachableAt.step ⟨⟨12, 0⟩, .flex "b" [] (.vote 2 .no)⟩ h3 ⟨by decide, by decide⟩
+  exact ReachableAt.step ⟨⟨16, 0⟩, .flex "x" [] (.close 2)⟩ h4 ⟨by decide, by decide⟩
+
+/-- proposal 1 is stored Passed and carries a later No ballot; proposal 2 is stored Rejected (closed after expiry) -/
+example : ((Ex.finalJ.flex.core.proposals.get? 1).map fun p => (p.status, p.votes, p.totalWeight)) = some (.passed, ⟨3, 2, 0, 0⟩, 5) ∧
+    ((Ex.finalJ.flex.core.proposals.get? 2).map fun p => (p.status, p.votes, p.totalWeight)) = some (.rejected, ⟨2, 3, 0, 0⟩, 5) := by
+  decide
+
+/-- the premise of C04 holds for both (ballots 5 ≤ total 5, 51 % is a valid 9-decimal threshold) -/
+example : C04.Premise ⟨.open, Ex.inst.threshold, 5, ⟨3, 2, 0, 0⟩, .atHeight 15⟩ ∧
+    C04.Premise ⟨.open, Ex.inst.threshold, 5, ⟨2, 3, 0, 0⟩, .atHeight 16⟩ ∧ C04.nineDecimals Ex.inst.threshold :=
+  ⟨⟨by decide, by decide, rfl⟩, ⟨by decide, by decide, rfl⟩, ⟨510000000, by decide⟩⟩
+
+/-- before the Close (block 12) proposal 2 is stored Open and reported Open; at its expiry it is reported Rejected -/
+example :
+    let w := run CwPlus.Props.C15.Cex.noExt 10 Ex.world0 (Ex.opsJ.take 4)
+    ((w.flex.core.proposals.get? 2).map (·.status)) = some .open ∧
+    ((Cw3Flex.queryProposal w.flex ⟨12, 0⟩ 2).toOption.map (·.status)) = some .open ∧
+    ((Cw3Flex.queryProposal w.flex ⟨16, 0⟩ 2).toOption.map (·.status)) = some .rejected ∧
+    (Cw3Flex.execute w.flex w.group "ms" ⟨16, 0⟩ "x" [] (.close 2)).isOk = true ∧
+    (Cw3Flex.execute w.flex w.group "ms" ⟨15, 0⟩ "x" [] (.close 2)).isOk = false := by
+  decide
+
+/-! ### without the premise the sticky-status statements are FALSE of the code (consequence of D3) -/
+
+namespace CexJ
+
+def group0 : Cw4Group.State :=
+  match Cw4Group.instantiate ⟨some ⟨true, "adm"⟩, [(⟨true, "a"⟩, 1), (⟨true, "b"⟩, 4), (⟨true, "c"⟩, 4), (⟨true, "d"⟩, 4)]⟩ 5 with
+  | .ok g => g
+  | .error _ => Cw4Group.State.empty
+
+/-- quorum 40 %, threshold 60 % -/
+def inst : InstMsg :=
+  { group := ⟨true, "grp"⟩, threshold := .thresholdQuorum 600000000000000000 400000000000000000,
+    maxVotingPeriod := .height 5, executor := none, deposit := none }
+
+def flex0 : State := match instantiate inst (some group0) with | .ok s => s | .error _ => default
+
+def world0 : World := World.init flex0 group0 CwPlus.Props.C15.Cex.token0 [] "ms" "grp" "tok" 5
+
+/-- In block 10 the admin lowers b, c, d from 4 to 1 (group total 13 → 4), then — still in block 10 — `a` proposes:
+the proposal records total 4.  b, c, d vote with their snapshot weights 4 (start of block 10). -/
+def ops : List Op :=
+  [⟨⟨10, 0⟩, .group "adm" (.updateMembers [] [(⟨true, "b"⟩, 1), (⟨true, "c"⟩, 1), (⟨true, "d"⟩, 1)])⟩,
+   ⟨⟨10, 0⟩, .flex "a" [] (.propose "t" "d" [] none)⟩,
+   ⟨⟨11, 0⟩, .flex "b" [] (.vote 1 .yes)⟩,
+   ⟨⟨12, 0⟩, .flex "c" [] (.vote 1 .no)⟩,
+   ⟨⟨12, 0⟩, .flex "d" [] (.vote 1 .no)⟩]
+
+def final : World := run CwPlus.Props.C15.Cex.noExt 10 world0 ops
+
+end CexJ
+
+example : instantiate CexJ.inst (some CexJ.group0) = .ok CexJ.flex0 := rfl
+
+/-- **The unguarded `passed_justified` is false for cw3-flex** (machine-checked; a consequence of the open known
+finding `C06/flex/propose-after-group-update-in-same-block`, defect D3 — same root cause, seen at the C03 level).
+With the recorded total (4) below the snapshot total (13), b's Yes (4) makes the proposal Passed (5 of 4 ≥ 60 %), and
+it stays stored Passed while c and d vote No: the recorded ballots are 5 Yes / 8 No — 38 % Yes — yet the proposal is
+reported Passed and Execute succeeds at expiry (block 15), although the outcome its recorded ballots imply at that
+block is Rejected.  The hypothesis `hprem` of `passed_justified` (ballots ≤ recorded total) is what fails: 13 > 4. -/
+theorem passed_justified_counterexample :
+    ((CexJ.final.flex.core.proposals.get? 1).map fun p => (p.status, p.votes, p.totalWeight)) = some (.passed, ⟨5, 8, 0, 0⟩, 4) ∧
+    Cw4Group.queryTotalWeight CexJ.final.group (some 10) = 13 ∧
+    ((CexJ.final.flex.core.proposals.get? 1).map fun p => (Outcome p (ballotsOf CexJ.final.flex.core 1) ⟨15, 0⟩).toOption)
+      = some (some .rejected) ∧
+    ((Cw3Flex.queryProposal CexJ.final.flex ⟨15, 0⟩ 1).toOption.map (·.status)) = some .passed ∧
+    (Cw3Flex.execute CexJ.final.flex CexJ.final.group "ms" ⟨15, 0⟩ "x" [] (.execute 1)).isOk = true := by
   decide
 
 end CwPlus.Props.C03Flex
